@@ -265,7 +265,7 @@ func findIdOp(name string) *c07IdOp {
 
 func runC07Id(tb report.TB, rep *report.Reporter, c c07IdCase) {
 	env := getC07Env(tb)
-	repo := env.repo
+	repo := env.freshClocks(tb)
 	op := findIdOp(c.Operator)
 	if op == nil {
 		tb.Fatalf("harness: unknown operator %s", c.Operator)
